@@ -314,6 +314,71 @@ theorem explicit_marker_variable_value (name mn : Str) (ts : List Transformer) (
 
 end transformers
 
+/-! ### The concrete transformers -/
+
+/-- `Slice` after the repair of D7: an inverted range selects nothing (the unrepaired code panicked). -/
+theorem slice_inverted_range_empty (from_ to : Nat) (s : Str) (h : to < from_) :
+    sliceT from_ (some to) s = [] := by
+  unfold sliceT
+  simp only [Option.getD_some]
+  split
+  · rfl
+  · have hnot : ¬ (from_ ≤ (if to > blen s then blen s else to) ∧ (if to > blen s then blen s else to) ≤ blen s ∧
+        isBoundary s from_ = true ∧ isBoundary s (if to > blen s then blen s else to) = true) := by
+      intro hc
+      have := hc.1
+      split at this <;> omega
+    simp [strGet, hnot]
+
+/-- `Slice` with `from = 0` and no `to` is the identity, whatever the bytes. -/
+theorem slice_whole (s : Str) : sliceT 0 none s = s := by
+  have hb : ∀ s : Str, isBoundary s (blen s) = true := by
+    intro s
+    induction s with
+    | nil => simp [isBoundary, blen]
+    | cons c cs ih =>
+      have := Char.utf8Size_pos c
+      simp only [blen]
+      cases h : c.utf8Size + blen cs with
+      | zero => omega
+      | succ k =>
+        simp only [isBoundary]
+        rw [← h]
+        simp [ih]
+  have ht : ∀ s : Str, takeBytes s (blen s) = s := by
+    intro s
+    induction s with
+    | nil => simp [takeBytes, blen]
+    | cons c cs ih =>
+      have := Char.utf8Size_pos c
+      simp only [blen]
+      cases h : c.utf8Size + blen cs with
+      | zero => omega
+      | succ k =>
+        simp only [takeBytes]
+        rw [← h]
+        simp [ih]
+  have h0 : isBoundary s 0 = true := by cases s <;> rfl
+  have hd : dropBytes s 0 = s := by cases s <;> rfl
+  simp [sliceT, strGet, hb, h0, hd, ht]
+
+/-- On multi-byte text the indices are byte offsets: `日本` is 6 bytes; `3..6` is `本`, an index inside a character
+selects nothing (it panicked before the repair), and so does an inverted range. -/
+example : sliceT 3 (some 6) ['日','本'] = ['本'] ∧ sliceT 1 (some 4) ['日','本'] = [] ∧
+    sliceT 3 (some 1) ['日','本'] = [] ∧ sliceT 7 none ['日','本'] = [] ∧ sliceT 0 (some 100) ['日','本'] = ['日','本'] := by
+  decide
+
+/-- The ASCII stand-ins of heck's conversions used by the driver (differential-tested against the crate,
+exhaustively for strings of length ≤ 5 over `{a,b,A,B,1,_,-}` in the thorough tier): `camelize` is LOWER camel case;
+an acronym followed by a word splits before the word's capital; digits do not split. -/
+example :
+    camelA ['f','o','o','_','B','a','r','-','b','a','z'] = ['f','o','o','B','a','r','B','a','z'] ∧
+    kebabA ['X','M','L','H','t','t','p','R','e','q','2'] = ['x','m','l','-','h','t','t','p','-','r','e','q','2'] ∧
+    snakeA ['f','o','o','B','a','r',' ',' ','b','A','Z'] = ['f','o','o','_','b','a','r','_','b','_','a','z'] ∧
+    strReplace [] ['-'] ['a','b'] = ['-','a','-','b','-'] ∧
+    strReplace ['a','a'] ['b'] ['a','a','a','a','a'] = ['b','b','a'] := by
+  decide
+
 /-! ### End to end -/
 
 /-- Every template of the rule in which `from_route_rule` / `get_target` substitute. -/
